@@ -259,10 +259,6 @@ Definition pop_run_spec (s : popsys) (dt : Qc) (steps ss : nat) (y0 : row) : lis
   spec_rows (euler_upd (pop_rhs_spec s) dt) ss (cdiv steps ss) 0%Z y0.
 Definition pop_wf (s : popsys) : bool :=
   forallb (fun c => (length (cW c) =? nth (ctgt c) (psizes s) 0)%nat) (pconns s).
-(* guard of the torch finding: torch cannot compile a coupling template (wsum has no numpy stand-in) *)
-Definition torch_wsum_free (b : backend) (s : popsys) : bool :=
-  match b with BTorch => forallb (fun c => (ckind c =? 0)%nat) (pconns s) | _ => true end.
-
 (* ================================================================================================ sigmoid *)
 (* base_funcs / Fortran helper text / the numpy stand-ins of torch and jax:  1/(1 + exp(-x));
    torch.sigmoid and jax.nn.sigmoid are the logistic function exp(x)/(1 + exp(x)).  E stands for exp. *)
